@@ -529,7 +529,9 @@ fn sig_digits(tok: &str) -> usize {
 }
 
 fn eval_text_npy_text(exp: i32, p: usize, scratch: &Scratch) -> (u64, Option<Viol>) {
-    let vals: Vec<f64> = (100..1000).map(|m| format!("{m}e{exp}").parse::<f64>().unwrap()).collect();
+    // both signs (a negative entry that rounds to nothing prints as -0) and the two zeros
+    let mut vals: Vec<f64> = (100..1000).flat_map(|m| [format!("{m}e{exp}").parse::<f64>().unwrap(), format!("-{m}e{exp}").parse::<f64>().unwrap()]).collect();
+    vals.extend([0.0, -0.0]);
     let x = RefArray { shape: vec![vals.len()], data: vals };
     let t0 = text_of(&x);
     let ps = p.to_string();
@@ -778,6 +780,22 @@ pub fn run(tier: Tier) -> i32 {
         extra: vec![("cells".into(), J::Arr(ladder.iter().map(|s| J::u(s.iter().product::<usize>())).collect()))],
     });
 
+    {
+        // the conversions written and routed in every other way
+        let mut sp: Vec<(Vec<String>, Vec<u8>)> = Vec::new();
+        let strs = |a: &[&str]| -> Vec<String> { a.iter().map(|x| x.to_string()).collect() };
+        for x in l2_spectra().iter().take(3) {
+            let text = text_of(x).into_bytes();
+            let npy = run_sfs(&["view", "-O", "npy"], Stdin::Bytes(&text), &scratch).stdout;
+            sp.push((strs(&["view", "--precision", "17"]), text.clone()));
+            sp.push((strs(&["view", "-O", "npy"]), text.clone()));
+            sp.push((strs(&["view", "--precision", "0"]), text.clone()));
+            sp.push((strs(&["view", "--precision", "17"]), npy.clone()));
+            sp.push((strs(&["view", "-O", "npy"]), npy.clone()));
+            sp.push((strs(&["fold", "--precision", "17"]), text));
+        }
+        super::spelling_part(&mut rep, "C07", "text -> text, text -> npy, npy -> text, npy -> npy and fold for three spectra", &sp, &scratch);
+    }
     // text -> npy -> text
     let mut tnt = Vec::new();
     for exp in -8..=4 {
@@ -797,7 +815,7 @@ pub fn run(tier: Tier) -> i32 {
         name: "cli: text -> npy -> text".into(),
         evaluations: 3 * tnt.len() as u64,
         nontrivial: tnt.len() as u64,
-        note: format!("mantissas 100..999 x exponents -8..4 (values 1e-6..1e7) x precision {{0,3,6,9}}; {tokens} tokens with <=15 significant digits compared byte-wise"),
+        note: format!("mantissas 100..999 of both signs and the two zeros x exponents -8..4 (values 1e-6..1e7) x precision {{0,3,6,9}}; {tokens} tokens with <=15 significant digits compared byte-wise"),
         exhaustive: true,
         extra: vec![("tokens_compared".into(), J::Int(tokens as i64))],
     });
